@@ -261,6 +261,8 @@ func init() {
 			"an object with a declared property AND typed additionalProperties: an undeclared member of another JSON type is rejected"),
 		l3UnitT("integers/min-sized", map[string]int{"KINDS": 4, "DEPTH": 0, "MINSIZED": 1, "NUMSHAPEMASK": 9, "REF": 1}, map[string]int{"KINDS": 4, "DEPTH": 0, "MINSIZED": 1, "NUMSHAPEMASK": 41}, "C03.",
 			"integer properties with --min-sized-ints on and off: another JSON kind and non-integral numbers are rejected, null is accepted where the type list has it (and yields nil)"),
+		l3Unit("scalars-with-a-string-format-annotation", map[string]int{"KINDS": 14, "DEPTH": 0, "NONSTRFMT": 1, "NUMSHAPES": 2, "MARSHAL": 0}, "C03.",
+			"number, integer and boolean properties (nullable or not, inline or via $ref) that also carry a format defined for strings (date-time, date, time, ipv4, ipv6, email): on a non-string type the keyword is an annotation -- a value of the stated JSON type is accepted, a string (or any other type) is rejected"),
 		l3UnitT("null-typed-positions", map[string]int{"KINDS": 8208, "DEPTH": 1, "ITEMKINDS": 8192, "ARRSHAPES": 4, "N": 1}, map[string]int{"KINDS": 8208, "DEPTH": 1, "ITEMKINDS": 8192, "ARRSHAPES": 4, "N": 2}, "C03.",
 			"positions of type null (a property; the items of an array with every combination of minItems/maxItems): only null is accepted there, any other JSON value is rejected"))})
 	reg(&Property{ID: "C08", Units: []Unit{
@@ -290,6 +292,10 @@ func init() {
 			Bounds: "one property; default values are concrete representatives (they travel through litter.Sdump), constraints symbolic (exact grid), document arrays <= N",
 			Quick:  map[string]int{"GRID": 2, "GRIDMAG": 36, "N": 2, "DEFAULTS": 1, "NUMSHAPES": 4, "STRSHAPES": 3, "ARRSHAPES": 3, "ITEMKINDS": 1, "MINSIZED": 1, "DEFTEXT": 1},
 			Panic:  "inconclusive"},
+		{Name: "object-typed-defaults", Harness: "pkg/generator:HarnessC09Object", Layer: "L3",
+			Desc:   "an optional object-typed property (inline or via $ref) whose default gives any subset of its boolean/integer/string members, each with the Go zero value of its type or another value, while each member has or has not a default of its own: absent or null property -> the decoded object holds exactly the given values (a given false/0/\"\" is a value); present property -> document members kept, absent members take their own defaults",
+			Bounds: "three members, 3^3-1 default objects x 2^3 own-default sets x inline/$ref; symbolic documents (x absent/null/object, members absent or type-correct)",
+			Quick:  map[string]int{"GRID": 2, "GRIDMAG": 36}, Panic: "inconclusive"},
 		siblingsUnit("C09."),
 	}})
 	reg(&Property{ID: "C17", Units: []Unit{
